@@ -1041,6 +1041,24 @@ def r_leftover_arguments(rule, root=None):
             src = str(A.ftxt(c["recv"]))
             if src.startswith(vs + "."):
                 tests.append(c)
+    if not tests:
+        # written as a loop: `for (k, v) in vs.iter() { if v.is_some() { return Err(..) } }`
+        for lp in A.find(fn["body"], "For"):
+            if lp is loops[0] or lp.get("ln", 0) <= loops[0].get("le", loops[0]["ln"]) or not str(A.ftxt(lp["iter"])).startswith(vs):
+                continue
+            q = lp["pat"]
+            while q.get("k") in ("PRef", "PType"):
+                q = q["pat"]
+            names = [A.binding_name(x) for x in q.get("elems", [])] if q.get("k") == "PTuple" else [A.binding_name(q)]
+            v = names[-1] if names else None
+            ifs = [i for i in A.find(lp["body"], "If") if any(str(A.ftxt(r_["e"])).startswith("Err(") for r_ in A.find(i["then"], "Return") if r_.get("e") is not None)]
+            if len(ifs) == 1 and str(A.ftxt(ifs[0]["cond"])).strip() in ("%s.is_some()" % v, "(%s.is_some())" % v):
+                rule.ok("every value still unclaimed after the fields were filled is reported, whatever its type", file=SHAPES, line=lp["ln"])
+                rule.ok("a leftover argument returns an error", file=SHAPES, line=lp["ln"])
+                return
+            if len(ifs) == 1:
+                rule.bad("leftover|predicate", "from_enum_map reports a leftover positional argument only under `%s`; any value left over must be an error" % str(A.ftxt(ifs[0]["cond"]))[:60], A.where(SHAPES, lp))
+                return
     if len(tests) != 1:
         rule.lost("the leftover-argument test after the field loop of from_enum_map (`vs.iter().find(|(_k, v)| v.is_some())`)")
         return
